@@ -326,9 +326,27 @@ def run_case(case):
         for e in M.edges(prob["tree"]):
             e["length"] = round(rng.uniform(0.01, 1.5), 4)
         relate(res, prob, rng)
+        if i % 2 == 1 and prob.get("mprobs") is not None and "positions" not in prob["mprobs"]:
+            # the default route: motif probabilities estimated from the alignment itself (ambiguity codes and gaps in
+            # the data); every relation that keeps the composition of the data must still hold
+            p2 = copy.deepcopy(prob)
+            p2["mprobs"] = None
+            p2["mprobs_from_alignment"] = True
+            if not M.has_ambiguity(p2):
+                amb = "X" if M.kind_of(model) == "protein" else rng.choice("NRY")
+                nm0 = sorted(p2["aln"])[0]
+                ml_ = {"nuc": 1, "protein": 1, "codon": 3, "dinuc": 2}[M.kind_of(model)]
+                k0 = ml_ * rng.randrange(len(p2["aln"][nm0]) // ml_)
+                p2["aln"][nm0] = p2["aln"][nm0][:k0] + amb + p2["aln"][nm0][k0 + 1 :]
+            res.count("motif-probs-from-alignment")
+            relate(res, p2, rng)
         if i == 0:
             res.sample({"model": model, "tree": M.newick(prob["tree"]), "aln": prob["aln"], "params": prob["params"], "edge_params": prob["edge_params"]})
     return res
+
+
+class _SkipRelation(Exception):
+    pass
 
 
 def relate(res, prob, rng, only=None):
@@ -400,8 +418,12 @@ def relate(res, prob, rng, only=None):
     sub = [rng.randrange(L) for _ in range(rng.randint(1, max(1, L)))]
     sub_aln = {n: "".join(s[i * ml : (i + 1) * ml] for i in sub) for n, s in prob["aln"].items()}
     try:
+        if prob.get("mprobs_from_alignment"):
+            raise _SkipRelation  # the estimated motif probabilities change with the composition of the data
         sub_lnL = lnL_of(with_aln(sub_aln))
         check("concatenation-additivity", with_aln({n: prob["aln"][n] + sub_aln[n] for n in names}), expected=base + sub_lnL)
+    except _SkipRelation:
+        pass
     except Exception as e:  # noqa: BLE001
         res.evals += 1
         res.witness(exc_mechanism("C11/concatenation-additivity", e), model=model, replay_case={"kind": "one", "prob": prob, "seed": seed})
